@@ -227,6 +227,8 @@ func checkC08(c *Ctx) {
 
 	checkRemovalUnconditional(c, "C08.7")
 	checkExpiryClock(c, "C08.8")
+	// ---- C08.9 a registration that carried a connection is kept for the active lifetime: the mark is unconditional
+	checkMarkUnconditional(c, "C08.9", 1)
 
 	// ---- C08.6 an expired registration stops matching: lookups are computed from the live table on every call
 	r.Rule("C08.6", "connection lookups are computed from the live registration table on every call (no memoised set survives a removal)", 1)
